@@ -56,13 +56,24 @@ def start(chk, repo):
     chk.ob("R19.1", pv.qualname + "._start", "position = pdo_assign"
            "[terminal][sync manager] + position", ok, st,
            "the allocation of the device's sync group")
+    def root(x):
+        while isinstance(x, (ast.Attribute, ast.Subscript)):
+            x = x.value
+        return x.id if isinstance(x, ast.Name) else None
     stores = [x for x in walk_no_nested(st) if isinstance(
-        x, ast.Attribute) and isinstance(x.ctx, (ast.Store, ast.Del))
-        and isinstance(x.value, ast.Name) and x.value.id == "self"]
+        x, (ast.Attribute, ast.Subscript)) and isinstance(
+            x.ctx, (ast.Store, ast.Del)) and root(x) == "self"]
+    stores += [c.func for c in walk_no_nested(st) if isinstance(
+        c, ast.Call) and isinstance(c.func, ast.Attribute) and isinstance(
+            c.func.value, ast.Attribute) and root(c.func) == "self"
+        and c.func.attr in ("setdefault", "update", "append", "add",
+                            "__setitem__", "insert", "extend")]
+    stores += [d for d in st.decorator_list if unparse(d).split("(")[
+        0].split(".")[-1] in ("cache", "lru_cache", "cached_property")]
     chk.ob("R19.1", pv.qualname + "._start", "the position is looked up in "
            "the device's sync group on every call", not stores,
            stores[0] if stores else st,
-           f"`self.{stores[0].attr}` is written: a position remembered in "
+           f"`{unparse(stores[0])[:40]}` is written: a position remembered in "
            f"the variable outlives the allocation it came from - the same "
            f"device in a new or re-allocated sync group is addressed at the "
            f"old offset" if stores else "no state is kept in the PacketVar")
